@@ -678,7 +678,7 @@ func (r *run) against(k *kind, what string, a claim, ha, va, la string, b claim)
 		if ha == hb && k.effect(a) != k.effect(b) {
 			r.reported[ha] = true
 			r.out.ViolateWith(fmt.Sprintf("%s: valid claims differing only in %s share a ClaimHash", k.name, what),
-				[]string{la, lb, "# both pass ValidateBasic; real ClaimHash of both = " + ha})
+				[]string{la, lb, "# both pass ValidateBasic; real ClaimHash of both = " + ha, fmt.Sprintf("# a = %+v", a), fmt.Sprintf("# b = %+v", b)})
 		}
 	}
 	r.record(k, b, hb, vb, lb)
